@@ -77,7 +77,8 @@ var frameRe = regexp.MustCompile(`\n  (\S+)\(`)
 func runC14(args []string) {
 	r := core.NewRun("C14", "exploration")
 	r.Rule = "three schema trees on disk (one large file with >= 6-field messages/unions, tags and opcodes; the same with 4 imported files in combined mode; the same with go_package consts in separate mode using types of 3 imported packages) are parsed once in a -race build of the front-end worker; " +
-		"ReadFile, Validate, Format and Generate under 6 option sets are called 5x sequentially and then from 8 goroutines x 20 repetitions sharing the one File value, in 3 fresh processes each. " +
+		"ReadFile, Validate, Format and Generate under 6 option sets are called 5x sequentially and then from 8 goroutines x 20 repetitions sharing the one File value, in 3 fresh processes each (results are recorded per goroutine and merged after the join, so the monitor adds no ordering between calls; the last process of every tree runs barrier-aligned: all goroutines start the same operation together). " +
+		"Further trees with fewer repetitions: the extremes family, seeded random schemas, and a COLD tree in which 30 malformed/unusual texts go through ReadFile and Format from 8 goroutines with no sequential phase first. " +
 		"Oracle: every call of the same operation returns byte-identical output and the same error nil-ness within and across processes; the File (exported fields, deep) is unchanged; zero 'WARNING: DATA RACE' blocks in the race logs. " +
 		"The evidence counts call pairs that really overlapped in time; fewer than 100 overlapping pairs makes the race clause inconclusive. distinct_nontrivial = distinct (tree, operation, process) triples."
 	r.Assume = []string{"Go race detector (happens-before): a race is reported when both accesses are executed, whatever the timing", "error text is not compared (the suite documents that the import-cycle text depends on map order)"}
